@@ -101,6 +101,38 @@ fn divisor_scaled() -> BoxedStrategy<Case> {
         .boxed()
 }
 
+/// "unit-like" second operands: +-m * 10^z at scale s with m in {1, 2, 5, 25, 125, 3, 7} (mostly 1) -
+/// the quanta and divisors people actually write (0.01, -0.01, 0.05, 1, -1, 10, 0.25, ...), as a
+/// Decimal (with or without trailing zeros) or as an integer; the first operand human-scale or arbitrary
+fn unit_second_operand() -> BoxedStrategy<Case> {
+    (
+        prop_oneof![6 => Just(1i128), 1 => Just(2i128), 1 => Just(5), 1 => Just(25), 1 => Just(125), 1 => Just(3), 1 => Just(7)],
+        0u32..=3,
+        0u8..=18,
+        any::<bool>(),
+        prop_oneof![2 => arb_d(), 3 => (-10_000_000i128..=10_000_000, 0u8..=9).prop_map(|(c, s)| D::new(c, s))],
+        0u8..3,
+        0u8..=4,
+        arb_n(),
+        0u8..8,
+    )
+        .prop_map(|(m, z, sc, neg, x, o, as_int, n, mode)| {
+            let c = m * 10i128.pow(z);
+            let c = if neg { -c } else { c };
+            let op = match o { 0 => Op::Quantize, 1 => Op::DivRounded, _ => Op::MulRounded };
+            // integer form of the unit (scale 0) for quantize / div_rounded in one case out of five
+            let y = if as_int == 0 && op != Op::MulRounded {
+                let ty = if neg { [1u8, 3, 5, 7, 8][(m as usize + z as usize) % 5] } else { ((m as usize + z as usize + sc as usize) % 9) as u8 };
+                let (lo, hi) = int_range(ty);
+                Opnd::Int(I { ty, v: c.clamp(lo, hi) })
+            } else {
+                Opnd::Dec(D::new(c, sc))
+            };
+            Case { op, x: Opnd::Dec(x), y, n, mode }
+        })
+        .boxed()
+}
+
 /// results exactly at / next to +-(2^127-1): mul_rounded with cy ~ (MAX+d)*10^(p+q-n)/cx,
 /// div_rounded with cx ~ (MAX+d)*cy/10^(n+q-p), and MAX * (non-normalised one)
 fn result_edge() -> BoxedStrategy<Case> {
@@ -293,6 +325,7 @@ impl Prop for C04 {
                 x: Opnd::Dec(x), y: Opnd::Dec(y), n, mode,
             }),
             3 => result_edge(),
+            3 => unit_second_operand(),
             4 => divisor_scaled(),
             3 => div_tie(),
             3 => mul_tie(),
@@ -303,7 +336,7 @@ impl Prop for C04 {
     fn mandatory_labels(&self, _tier: Tier) -> Vec<&'static str> {
         vec![
             "div:equal", "div:dividend-scaled", "div:divisor-scaled", "div:wide", "div:tie", "div:rounded", "n>18",
-            "mul:tie", "mul:rounded", "mul:wide", "quant:tie", "quant:rounded", "quant:neg-quantum",
+            "mul:tie", "mul:rounded", "mul:wide", "quant:tie", "quant:rounded", "quant:neg-quantum", "quant:neg-quantum:representations",
             "D/D", "D/T", "T/D", "T/T", "zero-divisor",
         ]
     }
@@ -449,6 +482,41 @@ impl Prop for C04 {
                     }
                 }
                 exps = e;
+                // Where two readings of "nearest multiple under that mode" are accepted (negative
+                // quantum, Ceiling/Floor), the result must still be a function of the VALUES: the
+                // same quantum written with another number of trailing zeros (or as an integer)
+                // must select the same multiple.
+                if yq.c < 0 && !yq.is_zero() && matches!(md, oracle::Mode::Ceiling | oracle::Mode::Floor) {
+                    let xd = fpdec::Decimal::new_raw(xq.c, xq.s);
+                    let base = op(|| xd.quantize(fpdec::Decimal::new_raw(yq.c, yq.s)));
+                    let mut alts: Vec<(String, Out)> = Vec::new();
+                    if yq.s < 18 {
+                        if let Some(c10) = yq.c.checked_mul(10).filter(|v| *v != i128::MIN) {
+                            alts.push((format!("{}e-{}", c10, yq.s + 1), op(|| xd.quantize(fpdec::Decimal::new_raw(c10, yq.s + 1)))));
+                        }
+                    }
+                    if yq.s > 0 && yq.c % 10 == 0 {
+                        alts.push((format!("{}e-{}", yq.c / 10, yq.s - 1), op(|| xd.quantize(fpdec::Decimal::new_raw(yq.c / 10, yq.s - 1)))));
+                    }
+                    if yq.s == 0 {
+                        if let Ok(i) = i64::try_from(yq.c) {
+                            alts.push((format!("{i}_i64"), op(|| xd.quantize(i))));
+                        }
+                    }
+                    for (what, o) in alts {
+                        ctx.sub();
+                        ctx.label("quant:neg-quantum:representations");
+                        let same_value = match (&base, &o) {
+                            (Out::Val(a, s), Out::Val(b, t)) => oracle::Big::from_i128(*a).mul(&oracle::Big::pow10(*t as u32)) == oracle::Big::from_i128(*b).mul(&oracle::Big::pow10(*s as u32)),
+                            // whether the multiple is representable depends on the scale the result
+                            // carries (the quantum's): a signal on one side is no verdict here
+                            _ => true,
+                        };
+                        if !same_value {
+                            ctx.fail("C04/quantize-depends-on-representation", format!("{case:?} mode={}: quantize by {}e-{} gives {base} but by the same quantum written {what} gives {o}", md.name(), yq.c, yq.s));
+                        }
+                    }
+                }
                 match (case.x, case.y) {
                     (Opnd::Dec(x), Opnd::Dec(y)) => outs.extend(forms!(Quantize::quantize, op, x.dec(), y.dec())),
                     (Opnd::Dec(x), Opnd::Int(i)) => with_int!(i, iv => outs.extend(forms!(Quantize::quantize, op, x.dec(), iv))),
